@@ -278,3 +278,25 @@ class LoopStub(_Stub):
 
 
 calls.BUILTIN_HANDLERS[id(_asyncio.get_running_loop)] = lambda ex, st, pos, named, node: [(st, PConst(LoopStub()))]
+
+
+def impose_outputs_stay_defined(S, T):
+    """no output returns to UNDEF: set_output / eval_block refuse UNDEF (their contracts), and they are the only writers (scan, C02)"""
+    bx = Int('b!od')
+    new = T.whole('_output'); old = S.whole('_output')
+    T.st.heap['_output'] = z3.Lambda([bx], If(new[bx] == Val.Undef, old[bx], new[bx]))
+    return []
+
+
+def step_rank(s):
+    """position of a progress marker in the order 0 -> -1 -> 1 -> -2 -> 2 of Circuit.init_sblock"""
+    return If(s >= 0, 2 * s, -2 * s - 1)
+
+
+def impose_steps_only_advance(S, T):
+    """progress markers never go back: guarantee of Circuit.init_sblock (proved, C05), the only writer after __init__ (scan, C05)"""
+    bx = Int('b!sa')
+    new = T.whole('init_steps_completed'); old = S.whole('init_steps_completed')
+    T.st.heap['init_steps_completed'] = z3.Lambda([bx], If(step_rank(new[bx]) < step_rank(old[bx]), old[bx], new[bx]))
+    return []
+
